@@ -42,11 +42,14 @@ func init() {
 	})
 }
 
-func ruleC19a(c *Ctx) {
+func ruleC19a(c *Ctx) { effectRule(c, c.P.requestPathFuncs()) }
+
+// effectRule decides T-EFFECT for the given functions.
+func effectRule(c *Ctx, fns []*ssa.Function) {
 	p := c.P
 	e := newEffectCtx(p)
 	nfn := 0
-	for _, fn := range p.requestPathFuncs() {
+	for _, fn := range fns {
 		nfn++
 		name := p.fname(fn)
 		eachInstr(fn, func(i ssa.Instruction) {
